@@ -80,6 +80,7 @@ def k23_own_pattern(ctx, rule: str):
         return NotImplemented
 
     hooks["lib_call"] = lib_hook
+    hooks["apply_decorators"] = True  # a memoising wrapper around the getter is built and run, not classified by shape
 
     orders: List[tuple] = [("P", "C", "G", "P", "C", "G", "S"), ("G", "C", "P", "G", "C", "P"), ("C", "P", "C", "S", "G"), ("S", "P", "C")]
     first = getter.node.args.args[0].arg if getter.node.args.args else "cls"
@@ -126,3 +127,112 @@ def k23_own_pattern(ctx, rule: str):
         emit(ctx, outs, getter.where())
         n += 1
     r.floor(rule, len(orders))
+
+
+# ---------------------------------------------------------------------------
+# K24  find_resistance answers with a value of the antibiotics table, or raises
+
+
+def k24_known_resistance(ctx, rule: str):
+    """`find_resistance(record)` evaluated on a record with an arbitrary feature table.  The labels of a feature are an
+    opaque collection; intersecting them with the antibiotics table (`.intersection(TABLE)`, `& keys`) gives a set of
+    *known cassettes* of unknown size; taking one out (`pop()`, iteration, `next(iter(...))`, unpacking) gives a known
+    cassette, and looking a known cassette up in the table gives a value of the table.  Checked: every value returned is a
+    table value looked up under a known cassette (never `None`, never a label as such), and the only exception raised is
+    RuntimeError.  How the function gets there (helpers, generators, guard clauses) is not prescribed."""
+    import ast
+
+    from .absdom import Aff, Piece
+    from .absint import ACollection, AExc, AList, ARec, BoundMethod, RaiseSig, _table_term
+    from .kernels import N, ZERO
+    from .roles import resistance_table, resistance_table_value
+
+    p = ctx.program
+    r = ctx.report
+    fr_ = p.get_func("moclo.registry._utils.find_resistance")
+    tname = resistance_table(p)
+    table = resistance_table_value(p, tname)
+    if table is None:
+        raise AnalysisError("%s: the antibiotics table `%s` does not fold to a mapping of labels to antibiotics" % (fr_.where(), tname))
+    AKEY = Term("known-cassette")
+    keys = set(table)
+    counter = {"n": 0}
+
+    def is_table(v) -> bool:
+        if isinstance(v, dict):
+            return set(v) == keys
+        if isinstance(v, (frozenset, set, list, tuple)):
+            return set(v) == keys
+        if isinstance(v, AList) and not v.generic:
+            return set(x for x in v.items if isinstance(x, str)) == keys and len(v.items) == len(keys)
+        return False
+
+    def labelish(v) -> bool:
+        return isinstance(v, Term) and v is not AKEY and "known-cassette" not in repr(v)
+
+    def keyset(I):
+        counter["n"] += 1
+        out = AList([AKEY], I.loop_depth, origin="known-cassettes#%d" % counter["n"])
+        out.generic, out.generic_from, out.min_len = True, 0, 0
+        out.keyset = True
+        return out
+
+    def getattr_hook(fr, base, a, node):
+        I = fr.I
+        if a == "intersection" and (labelish(base) or is_table(base)):
+            def inter(fr2, args, kwargs, node2):
+                if len(args) == 1 and ((labelish(base) and is_table(args[0])) or (is_table(base) and labelish(args[0]))):
+                    return keyset(fr2.I)
+                fr2.unsupported(node2, "intersection of %r with %r" % (base, args))
+            return BoundMethod("py", inter, a)
+        if isinstance(base, AList) and getattr(base, "keyset", False):
+            if a == "pop":
+                def pop(fr2, args, kwargs, node2):
+                    t = Aff.sym("len:list@%s" % base.uid)
+                    if not fr2.I.ge0(t - 1):
+                        raise RaiseSig(AExc("KeyError", ["pop from an empty set"], {}))
+                    return AKEY
+                return BoundMethod("py", pop, a)
+            if a in ("copy",):
+                return BoundMethod("py", lambda fr2, args, kwargs, node2: base, a)
+        return NotImplemented
+
+    def binop_hook(fr, op, l, r_, node):
+        if isinstance(op, ast.BitAnd) and ((labelish(l) and is_table(r_)) or (is_table(l) and labelish(r_))):
+            return keyset(fr.I)
+        return NotImplemented
+
+    def lib_hook(fr, dotted, args, kwargs, node):
+        if dotted in ("builtins.set", "builtins.frozenset") and len(args) == 1 and is_table(args[0]) and isinstance(args[0], dict):
+            return frozenset(args[0])  # the key set of the table
+        if dotted in ("builtins.sorted", "builtins.list", "builtins.tuple") and len(args) == 1 and isinstance(args[0], AList) and getattr(args[0], "keyset", False):
+            return args[0]  # the same known cassettes, in some order
+        return NotImplemented
+
+    def make_args(I):
+        rec = ARec(True, [Piece("W", ZERO, N)], Term("rec"))
+        rec.attrs["id"] = Term("id", Term("rec"))
+
+        def make_feature():
+            return AStruct("SeqFeature", qualifiers=Term("quals"), type=Term("ftype"), location=Term("loc"), id=Term("fid"))
+
+        rec.attrs["feature_coll"] = ACollection("features", make_feature)
+        # a known cassette is a key of the table
+        I.path.termeq[("table-has", repr(_table_term(table)), repr(AKEY))] = True
+        return (rec,), {}
+
+    def post(I, o):
+        name = fr_.qualname
+        if o.kind == "return":
+            v = o.value
+            ok = isinstance(v, Term) and v.op in ("table-get", "table-value") and len(v.args) >= 2 and v.args[0] == _table_term(table) and v.args[1] == AKEY
+            return [(rule, name, ok, "find_resistance must answer with the antibiotic the table gives for a cassette known to be in it "
+                                     "(or raise RuntimeError): this path returns %r" % (v,))]
+        if o.kind == "raise":
+            ok = isinstance(o.value, AExc) and o.value.name == "RuntimeError"
+            return [(rule, name + "#raises", ok, "the only failure find_resistance announces is RuntimeError: this path raises %r" % (o.value,))]
+        return [(rule, name, False, "find_resistance ends with %r" % (o,))]
+
+    outs = run_paths(ctx, fr_, make_args, [N - 1], hooks={"getattr": getattr_hook, "binop": binop_hook, "lib_call": lib_hook}, post=post)
+    emit(ctx, outs, fr_.where())
+    r.floor(rule, 2)
